@@ -42,7 +42,7 @@ RULE = ("one case = one invocation of the real `deep patch` (or of save_content_
         "pairs of JSON documents are generated (nested dict/list/str/int/float/bool/null, depth <= 4; B = edit script on A: "
         "key added/removed, value/type change, list insert/delete/append, nested edit, root replacement; or independent; or identical); "
         "fault schedules: none, every single fault point x {Exception, KeyboardInterrupt} x {--backup} x {--debug}, "
-        "pairs (all, for a subset of document pairs) and random triples; non-trivial = a fault fired or A != B; "
+        "pairs (all, for a subset of document pairs) and random triples; plus a round-trip-only stream (fault-free diff -> patch through the real CLI, 900 quick / 6000 thorough pairs): scalar lists related by insert/delete/replace/move/dup/rotate edit scripts (values.gen_atom_list_pair, JSON alphabets keeping 1/true/1.0 apart) and 'inserts in front of an unchanged run + deletes behind it', planted under 0-2 dict/list levels; non-trivial = a fault fired or A != B; "
         "distinct = distinct (A text, B text, flags, schedule)")
 TRUSTED = [
     "the file system is modelled abstractly (path -> option content) with POSIX semantics: os.rename is atomic, replaces an existing regular file, "
